@@ -72,7 +72,7 @@ def edit_case(rng, c, kind):
                 return None
             t = rng.choice(absent)
         else:
-            t = rng.choice(["middle", "centre", "Left", "up"])
+            t = rng.choice(["middle", "centre", "Left", "up", ""])          # the empty word is no position either
         pairs = []
         for x in a["axis"]:
             if x == name:
